@@ -3,7 +3,7 @@
    Model: Codec/C27Convert.v (NumberTypeImpl_.Convert per width, DecimalType_.Convert). *)
 From Coq Require Import ZArith Bool List.
 Import ListNotations.
-From GMS Require Import Codec.C25Arith Codec.C27Convert Codec.C27ConvertProofs.
+From GMS Require Import Codec.C25Arith Codec.C27Convert Codec.C27ConvertProofs Codec.C27Strings Codec.C27StringsProofs.
 Open Scope Z_scope.
 
 (* the narrow integer types (every width below 64 bits, signed and unsigned): given the int64 image [n] of the
@@ -100,6 +100,63 @@ Theorem C27_convert_idempotent_decimal :
     conv_dec p s col (SD m2 s2) = COk (SD m2 s2) InRange.
 Proof. exact conv_dec_idempotent. Qed.
 Print Assumptions C27_convert_idempotent_decimal.
+
+(* ---- strings (model: Codec/C27Strings.v) ---- *)
+(* StringType.Convert for VARCHAR / CHAR (valid UTF-8) and VARBINARY: the text is kept byte for byte when it has at
+   most maxlen characters (bytes for VARBINARY), otherwise rejected; [nchars] is the decoder oracle's rune count,
+   assumed only to be at most the byte count *)
+Theorem C27_string_exact_or_rejected :
+  forall binary maxlen bs nchars, nchars <= Z.of_nat (length bs) ->
+    (forall out, conv_text binary maxlen bs nchars = TOk out ->
+       out = bs /\ (if binary then Z.of_nat (length bs) else nchars) <= maxlen) /\
+    (conv_text binary maxlen bs nchars = TErr -> maxlen < (if binary then Z.of_nat (length bs) else nchars)).
+Proof. exact conv_text_exact_or_error. Qed.
+Print Assumptions C27_string_exact_or_rejected.
+
+Theorem C27_convert_idempotent_string :
+  forall binary maxlen bs nchars out,
+    conv_text binary maxlen bs nchars = TOk out -> conv_text binary maxlen out nchars = TOk out.
+Proof. exact conv_text_idempotent. Qed.
+Print Assumptions C27_convert_idempotent_string.
+
+(* text into an integer type (every width below 64 bits, and BIGINT): "in range, no error" means the whole trimmed
+   text was consumed by the digit scan and the stored value is the parsed one, within the type's range *)
+Theorem C27_string_to_integer_exact_or_flag :
+  forall t bs out, t <> U64 -> conv_int_str t bs = COk out InRange ->
+    exists z, str_to_i64 bs = SOk z false /\ out = mk t z /\ in_range t z.
+Proof. exact conv_int_str_in_range. Qed.
+Print Assumptions C27_string_to_integer_exact_or_flag.
+
+Theorem C27_string_unreported_means_fully_consumed :
+  forall bs z, str_to_i64 bs = SOk z false -> snd (scan true (trim bs)) = [].
+Proof. exact str_unreported_consumes_everything. Qed.
+Print Assumptions C27_string_unreported_means_fully_consumed.
+
+(* a clean literal (digits only, optionally a leading '-') within BIGINT is parsed to exactly its value *)
+Theorem C27_string_clean_literal_exact :
+  forall ds, all_digits ds -> ds <> [] -> horner ds <= max_i64 ->
+    str_to_i64 ds = SOk (horner ds) false /\ str_to_i64 (45 :: ds) = SOk (- horner ds) false.
+Proof. exact str_clean_literal_exact. Qed.
+Print Assumptions C27_string_clean_literal_exact.
+
+(* REFUTED: malformed text is reported -- a text without any digit ("", "-", " +\t") converts to 0 silently *)
+Theorem C27_string_without_digits_refuted :
+  conv_int_str I32 [] = COk (SI 0) InRange /\ conv_int_str I8 [45] = COk (SI 0) InRange /\
+  conv_int_str U16 [32; 43; 9] = COk (SU 0) InRange.
+Proof. exact str_no_digit_silent. Qed.
+Print Assumptions C27_string_without_digits_refuted.
+
+Example C27_strings_nonvacuous :
+  conv_int_str I8 [49; 50; 55] = COk (SI 127) InRange /\
+  conv_int_str I8 [49; 50; 56] = COk (SI 127) Overflow /\
+  conv_int_str I8 [49; 50; 97; 98] = CErr /\
+  conv_int_str I8 [51; 48; 48; 97] = COk (SI 127) Overflow /\
+  conv_int_str I64 [32; 45; 53; 9] = COk (SI (-5)) InRange /\
+  conv_int_str I64 [57;50;50;51;51;55;50;48;51;54;56;53;52;55;55;53;56;48;56] = CErr /\
+  conv_text false 3 [230;151;165;230;156;172;232;170;158] 3 = TOk [230;151;165;230;156;172;232;170;158] /\
+  conv_text false 3 [97;98;99;100] 4 = TErr /\ conv_text true 3 [195;169;49] 2 = TOk [195;169;49].
+Proof. exact nonvacuous_strings. Qed.
+Print Assumptions C27_strings_nonvacuous.
 
 Example C27_nonvacuous :
   conv_int I8 (SI 127) = COk (SI 127) InRange /\
